@@ -17,7 +17,7 @@ RULE = ("call sets of 1-12 records x sample maps, each run (i) clean, non-strict
         "(strict and projection exclude each other on the command line). Compared with the model of the run: exit "
         "status, stdout (exact integers without projection, within 0.5e-6+1e-9*records with), the 'Skipped X/Y' summary, "
         "the contig:position named in the error, empty stdout on every failure. On the binary alone: total(stdout) + X "
-        "= Y = number of records. non-trivial = a run with a fault or with at least one skipped record; uncompressed BCF streams cut inside a record (1 byte or more into it) must fail with empty stdout; records whose GT value is no genotype ('0/x', '1/', 'A') in any column are corrupt; the runs repeated by path, with -q / -v and under logging / colour / locale environment variables (invocation_variants); records without a GT key; every target 1..7 against sites with 0-3 missing samples")
+        "= Y = number of records. non-trivial = a run with a fault or with at least one skipped record; uncompressed BCF streams cut inside a record (1 byte or more into it) must fail with empty stdout; records whose GT value is no genotype ('0/x', '1/', 'A') in any column are corrupt; the runs repeated by path, with -q / -v and under logging / colour / locale environment variables (invocation_variants); records without a GT key; every target 1..7 against sites with 0-3 missing samples; every single-site ALT class of cohorts of 2-5 (thorough 1-8) samples under every projection target beside a skipped record: the summary must report records, not rounded mass")
 
 
 def check(rep, tier, seed):
@@ -169,6 +169,37 @@ def check(rep, tier, seed):
             rep.fail(kind="property-oracle", cls="run-loop:large-cohort-conservation", case="%d samples, %d records, --project-shape %d" % (n, nrec, m + 1),
                      argv=["sfs"] + job[0], stdin=job[1].decode()[:300000], observed={"rc": rc, "stdout": so.decode(errors="replace")[:200], "skipped": skipped},
                      expected="finite values with mass + skipped = %d" % nrec, detail="mass + skipped != records (or non-finite values) for a cohort at the factorial-table seam / of hundreds of samples")
+    # the summary line counts RECORDS, not spectrum mass: every single-site class of small cohorts under every projection
+    # target, next to one record nobody is called at (skipped) - the projected weights of a site add up to one only up to
+    # rounding (often to 0.9999999999999999), and 'Skipped X/Y' must still say Y = records read, X = records skipped
+    sj, sm = [], []
+    for n in (range(2, 6) if tier == "quick" else range(1, 9)):
+        cols = ["s%d" % i for i in range(n)]
+        allmiss = ["./."] * n
+        for m in range(1, 2 * n + 1):
+            for a in range(0, 2 * n + 1):
+                site = ["1/1"] * (a // 2) + ["0/1"] * (a % 2) + ["0/0"] * (n - a // 2 - a % 2)
+                recs = [site, allmiss] if (a + m) % 2 else [allmiss, site]
+                sj.append((["create", "--project-shape", str(m + 1)], render_vcf(cols, recs))); sm.append((n, m, "ALT count %d" % a, 2, 1))
+            recs = [["1/1"] * (a // 2) + ["0/1"] * (a % 2) + ["0/0"] * (n - a // 2 - a % 2) for a in range(0, 2 * n + 1)] + [allmiss, ["./."] + ["0/1"] * (n - 1)]
+            nskip = 1 + (1 if 2 * (n - 1) < m else 0)
+            sj.append((["create", "--project-shape", str(m + 1)], render_vcf(cols, recs))); sm.append((n, m, "every class once", len(recs), nskip))
+    for job, (rc, so, se), (n, m, what, nrec, nskip) in zip(sj, run_cli_many(sj), sm):
+        rep.count("run-loop:summary-counts-records", "%d samples -> %d chromosomes, %s" % (n, m, what), True)
+        mm = re.search(r"Skipped (\d+)/(\d+) sites", se.decode(errors="replace"))
+        got = (int(mm.group(1)), int(mm.group(2))) if mm else None
+        parsed = parse_text_spectrum(so)
+        good = rc == 0 and parsed is not None and got == (nskip, nrec)
+        if good:
+            try:
+                good = abs(sum(Fraction(t) for t in parsed[1]) + nskip - nrec) <= Fraction(len(parsed[1]), 10**6)
+            except ValueError:
+                good = False
+        if not good:
+            rep.fail(kind="property-oracle", cls="run-loop:summary-counts-records", case="%d samples, --project-shape %d, %s + skipped record(s)" % (n, m + 1, what),
+                     argv=["sfs"] + job[0], stdin=job[1].decode(), observed={"rc": rc, "stdout": so.decode(errors="replace")[:200], "summary": got},
+                     expected="exit 0, mass %d, 'Skipped %d/%d sites'" % (nrec - nskip, nskip, nrec),
+                     detail="mass + skipped = records read, and the summary line reports the records read and skipped (not a number derived from the rounded mass)")
     # the form of the invocation and the environment are no part of the run: the same command by path, with -q / -v, with
     # logging / colour / locale variables set gives the same stdout, exit status and (for the environment) the same stderr -
     # the skip summary included
